@@ -1,6 +1,7 @@
 package c13
 
 import (
+	"reflect"
 	"context"
 	"fmt"
 	"io"
@@ -16,6 +17,7 @@ import (
 	"verifharness/c13/kit"
 
 	"github.com/smartcontractkit/chainlink-automation/pkg/v3/runner"
+	common "github.com/smartcontractkit/chainlink-common/pkg/types/automation"
 )
 
 const (
@@ -73,6 +75,8 @@ func runC13Once(t *testing.T, c *c13Case) *c13Obs {
 		go func() { _ = rn.Start(ctx) }()
 		synctest.Wait()
 		var wg sync.WaitGroup
+		raw := make([][]common.CheckResult, len(c.Calls))
+		var rawMu sync.Mutex
 		for i := range c.Calls {
 			wg.Add(1)
 			go func(i int) {
@@ -92,9 +96,20 @@ func runC13Once(t *testing.T, c *c13Case) *c13Obs {
 					o.Err, o.Kind = true, "error"
 				}
 				o.Res = kit.ReadResults(res)
+				rawMu.Lock()
+				raw[i] = res
+				rawMu.Unlock()
 			}(i)
 		}
 		wg.Wait()
+		// what a caller was handed must still be what it was handed once other calls have come and gone (a caller
+		// keeps its results across ticks): a slice that changed after the return is judged with its later content
+		for i := range raw {
+			if late := kit.ReadResults(raw[i]); !reflect.DeepEqual(late, obs.Calls[i].Res) && !obs.Calls[i].Err {
+				obs.Calls[i].Res = late
+				obs.Calls[i].Kind = "results changed after the call returned"
+			}
+		}
 		if err := rn.Close(); err != nil {
 			t.Errorf("runner close: %v", err)
 		}
